@@ -127,6 +127,30 @@ _NL = [
 ]
 
 
+# seeded C06-f: the memo keys of OverlappingFieldsCanBeMerged must keep the exclusivity flag -- one
+# response name selected three / four times under inline fragments on object types (two on the same
+# type), sub-selections mixing a plain field and spreads of one fragment, in all orders
+MEMO_SDL = ("union Pet = Dog | Cat\ntype Human { name: String nickname: String }\n"
+            "type Dog { owner: Human }\ntype Cat { owner: Human }\ntype Query { pet: Pet }\n")
+_MEMO_FRAGS = "fragment F on Human { x: nickname } fragment G on Human { x: name }"
+_MEMO_SETS = {
+    "fields-vs-fragment": ["... on Dog { owner { x: name } }", "... on Cat { owner { ...F } }", "... on Dog { owner { ...F } }"],
+    "fragment-pair": ["... on Dog { owner { ...G } }", "... on Cat { owner { ...F } }", "... on Dog { owner { ...F } }"],
+    "quadruple": ["... on Dog { owner { x: name } }", "... on Cat { owner { ...F } }", "... on Dog { owner { ...F } }",
+                  "... on Cat { owner { x: nickname } }"],
+    "valid-exclusive-only": ["... on Dog { owner { x: name } }", "... on Cat { owner { ...F } }", "... on Cat { owner { x: nickname } }"],
+}
+
+
+def memo_cases():
+    import itertools
+    out = []
+    for name, parts in _MEMO_SETS.items():
+        for perm in itertools.permutations(parts):
+            out.append((name, "{ pet { %s } } %s" % (" ".join(perm), _MEMO_FRAGS)))
+    return out
+
+
 def nl_cases():
     out = []
     for text, parts in _NL:
@@ -145,6 +169,7 @@ def corpus():
                      "query Q { anchor(req: 1, inn: {v: 1}, lnn: [1]) { ...Ta } }"):
             out.append({"kind": "rules", "sdl": WITNESS_SDL, "text": head + " " + " ".join(perm), "origin": "witness"})
     out.extend(nl_cases())
+    out.extend({"kind": "rules", "sdl": MEMO_SDL, "text": t, "origin": "witness"} for _n, t in memo_cases())
     out.append({"kind": "shape", "sdl": WITNESS_SDL, "text": _W[0], "opname": None, "vars": {}, "world": 0, "origin": "witness"})
     for name, defs in gen_valid.variable_position_forms(random.Random(7)):
         if name.startswith("shared"):
